@@ -52,7 +52,7 @@ def run_c10(pid, tier):
 
     def one(it):
         tout = it['path'].replace('.json', '_out.json')
-        r = run_tlc('Occupancy', 'SPECIFICATION Spec\nCONSTANT MaxCfg = 0\n', env={'VERIF_IN': it['path'], 'VERIF_OUT': tout}, workers=1,
+        r = run_tlc('Occupancy', 'SPECIFICATION Spec\nCONSTANT MaxCfg = %d\n' % (40 if (quick and it['name'].endswith('-long')) else 0), env={'VERIF_IN': it['path'], 'VERIF_OUT': tout}, workers=1,
                     name='Occ_' + os.path.basename(it['path'])[:-5], timeout=6000, java_opts=['-Xmx3g'])
         if not os.path.exists(tout):
             raise common.MachineryError('Occupancy wrote no verdict for %s\n%s' % (it['name'], common.tail(r.out, 30)))
